@@ -166,6 +166,7 @@ class CounterStyle(dict):
 
         # Step 3
         initial = None
+        original_value = counter_value
         is_negative = counter_value < 0
         if is_negative:
             negative_prefix, negative_suffix = (
@@ -204,7 +205,7 @@ class CounterStyle(dict):
         elif system == 'symbolic':
             length = len(counter['symbols'])
             if length < 1:
-                return self.render_value(counter_value, 'decimal')
+                return self.render_value(original_value, 'decimal')
             index = (counter_value - 1) % length
             repeat = (counter_value - 1) // length + 1
             initial = symbol(counter['symbols'][index]) * repeat
@@ -212,7 +213,7 @@ class CounterStyle(dict):
         elif system == 'alphabetic':
             length = len(counter['symbols'])
             if length < 2:
-                return self.render_value(counter_value, 'decimal')
+                return self.render_value(original_value, 'decimal')
             reversed_parts = []
             while counter_value != 0:
                 counter_value -= 1
@@ -222,13 +223,13 @@ class CounterStyle(dict):
             initial = ''.join(reversed(reversed_parts))
 
         elif system == 'numeric':
+            length = len(counter['symbols'])
+            if length < 2:
+                return self.render_value(original_value, 'decimal')
             if counter_value == 0:
                 initial = symbol(counter['symbols'][0])
             else:
                 reversed_parts = []
-                length = len(counter['symbols'])
-                if length < 2:
-                    return self.render_value(counter_value, 'decimal')
                 counter_value = abs(counter_value)
                 while counter_value != 0:
                     reversed_parts.append(symbol(
@@ -244,7 +245,7 @@ class CounterStyle(dict):
             else:
                 parts = []
                 if len(counter['additive_symbols']) < 1:
-                    return self.render_value(counter_value, 'decimal')
+                    return self.render_value(original_value, 'decimal')
                 remaining_value = counter_value
                 for weight, symbol_string in counter['additive_symbols']:
                     if weight == 0:
